@@ -96,9 +96,9 @@ def rhs(m, s, d):
     if kind == "lin_t":
         dx = (-0.6 + 0.3 * t) * X + (0.8 - 0.25 * t * t) * u0 + 0.15 * t
     elif kind == "nl":
-        dx = -0.7 * X + 0.4 * m.sin(X) * u0 + 0.25 * X * X
+        dx = -0.7 * X + 0.4 * m.sin(X) * u0 + 0.25 * X * m.cos(X)
     elif kind == "nl_t":
-        dx = -0.7 * X + 0.4 * m.sin(X) * u0 + 0.25 * X * X + 0.5 * m.cos(1.3 * t) + 0.2 * t * X
+        dx = -0.7 * X + 0.4 * m.sin(X) * u0 + 0.25 * X * m.cos(X) + 0.5 * m.cos(1.3 * t) + 0.2 * t * X
     elif kind == "lin":
         dx = -0.6 * X + 0.8 * u0 + 0.15
     else:
@@ -202,6 +202,11 @@ def c_next_u(m, pt, d):
     return ("le", pt.next(uu) - uu(m, pt), 0.3)
 
 
+def c_bc0_pg(m, pt, d):
+    # initial condition given by a parameter
+    return ("eq", pt.at_t0(_x0), pt.s["pg"])
+
+
 def c_bc0(m, pt, d):
     X0 = pt.at_t0(lambda m_, p_: p_.s["x"])
     return ("eq", X0, 0.6)
@@ -242,7 +247,7 @@ def c_intq(m, pt, d):
 
 
 CONS = {k[2:]: v for k, v in list(globals().items()) if k.startswith("c_")}
-POINT_CONS = {"bc0", "bcf", "bc_mixed", "periodic", "bcT", "vg_le", "T_le", "tf_le", "intq"}
+POINT_CONS = {"bc0_pg", "bc0", "bcf", "bc_mixed", "periodic", "bcT", "vg_le", "T_le", "tf_le", "intq"}
 
 
 def con(name, grid=None, include_first=True, include_last=True, scale=1):
@@ -500,7 +505,7 @@ def apply_init(st, s, d, ent):
     st.set_initial(sym, v)
 
 
-def declare(d, ocp=None, stage=None, solver=True, method=True, with_cons=True, with_obj=True):
+def declare(d, ocp=None, stage=None, solver=True, method=True, with_cons=True, with_obj=True, const_params=False):
     """Declare the case `d` through rockit's public API.  Returns a Real record.
 
     If `stage` is given the content is declared on that stage (multi-stage use)."""
@@ -509,6 +514,14 @@ def declare(d, ocp=None, stage=None, solver=True, method=True, with_cons=True, w
     r.d = d
     hz = d["horizon"]
     sc = d.get("scales", {})
+    pv0 = d.get("pvals", {})
+    if const_params and hz in ("Tparam", "t0param"):
+        # the same OCP written with the numbers
+        d = dict(d)
+        if hz == "Tparam": d["TT"] = pv0.get("TT", d["TT"])
+        if hz == "t0param": d["T0"] = pv0.get("T0", d["T0"])
+        d["horizon"] = hz = "fixed"
+        r.d_const = d
     if ocp is None:
         t0arg = rockit.FreeTime(d["T0"] if d.get("t0guess") is None else d["t0guess"]) if hz in ("t0free", "bothfree") else d["T0"]
         Targ = rockit.FreeTime(d["TT"] if d.get("Tguess") is None else d["Tguess"]) if hz in ("Tfree", "bothfree") else d["TT"]
@@ -532,9 +545,9 @@ def declare(d, ocp=None, stage=None, solver=True, method=True, with_cons=True, w
     if d["alg"]:
         s["z"] = st.algebraic(scale=sc.get("z", 1))
     if d["pg"] == "scalar":
-        s["pg"] = st.parameter()
+        s["pg"] = ca.MX(ca.DM(pv0.get("pg", PARAM_VALUES["pg"]))) if const_params else st.parameter()
     elif d["pg"] == "mat":
-        s["pg"] = st.parameter(2, 2)
+        s["pg"] = ca.MX(ca.DM(np.array(pv0.get("pgm", pgm_value())))) if const_params else st.parameter(2, 2)
     if d["pc"]:
         s["pc"] = st.parameter(grid="control", include_last=(d["pc"] == "control+"))
     if d["vg"]:
@@ -564,7 +577,9 @@ def declare(d, ocp=None, stage=None, solver=True, method=True, with_cons=True, w
         st.add_alg(alg(CA, s, d), scale=sc.get("alg", 1))
     # parameter values
     pv = d.get("pvals", {})
-    if d["pg"] == "scalar":
+    if const_params:
+        pass
+    elif d["pg"] == "scalar":
         st.set_value(s["pg"], pv.get("pg", PARAM_VALUES["pg"]))
     elif d["pg"] == "mat":
         st.set_value(s["pg"], np.array(pv.get("pgm", pgm_value())))
